@@ -208,3 +208,53 @@ impl AsRawFd for TappedFile {
         self.file.as_raw_fd()
     }
 }
+
+/// `tokio::sync::RwLock` with a cooperative yield point before every acquisition, so that a
+/// simulator can interleave other tasks exactly where a multi-thread runtime could.
+#[derive(Debug)]
+pub struct RwLock<T>(tokio::sync::RwLock<T>);
+
+impl<T> RwLock<T> {
+    pub fn new(value: T) -> Self {
+        Self(tokio::sync::RwLock::new(value))
+    }
+
+    pub async fn read(&self) -> tokio::sync::RwLockReadGuard<'_, T> {
+        buggify_yield("lock.storage").await;
+        self.0.read().await
+    }
+
+    pub async fn write(&self) -> tokio::sync::RwLockWriteGuard<'_, T> {
+        buggify_yield("lock.storage").await;
+        self.0.write().await
+    }
+}
+
+/// `async_lock::RwLock` (per-blob lock) with a cooperative yield point before every acquisition.
+#[derive(Debug)]
+pub struct AsRwLock<T>(async_lock::RwLock<T>);
+
+impl<T> AsRwLock<T> {
+    pub fn new(value: T) -> Self {
+        Self(async_lock::RwLock::new(value))
+    }
+
+    pub fn into_inner(self) -> T {
+        self.0.into_inner()
+    }
+
+    pub async fn read(&self) -> async_lock::RwLockReadGuard<'_, T> {
+        buggify_yield("lock.blob").await;
+        self.0.read().await
+    }
+
+    pub async fn write(&self) -> async_lock::RwLockWriteGuard<'_, T> {
+        buggify_yield("lock.blob").await;
+        self.0.write().await
+    }
+
+    pub async fn upgradable_read(&self) -> async_lock::RwLockUpgradableReadGuard<'_, T> {
+        buggify_yield("lock.blob").await;
+        self.0.upgradable_read().await
+    }
+}
